@@ -20,6 +20,8 @@ class Timer:
         self.expire_time = self.start_time + timeout
         self.auto_restart = auto_restart
         self.stopped = False
+        self.armed = True
+        """An expiry is pending"""
         if args is None:
             args = []
         elif not isinstance(args, (list, tuple)):
@@ -31,12 +33,18 @@ class Timer:
 
     def run(self, env: Environment) -> ProcessGenerator:
         try:
-            while env.now < self.expire_time:
+            # `armed`, not a comparison of the clock with expire_time, says
+            # whether an expiry is pending: a period below the resolution of
+            # the clock gives expire_time == now, and the timer must then
+            # fire at once instead of silently never
+            while self.armed:
+                self.armed = False
                 yield self.env.timeout(self.expire_time - env.now)
                 if not self.stopped:
                     self.timeout_callback(*self.args, **self.kwargs)
                     if self.auto_restart:
                         self.expire_time = env.now + self.timeout
+                        self.armed = True
         except Interrupt as _:
             pass
 
@@ -45,12 +53,14 @@ class Timer:
 
     def stop(self):
         self.stopped = True
+        self.armed = False
         self.expire_time = self.env.now
 
     def restart(self, timeout: SimTime):
         self.start_time = self.env.now
         self.timeout = timeout
         self.expire_time = self.start_time + timeout
+        self.armed = True
         if self.proc is self.env.active_process:
             # restarted from the timer's own callback: run() re-reads
             # expire_time and keeps sleeping until the new expiry
